@@ -5,6 +5,8 @@ Decided
       save_spike_clusters writes only the file its lookup of spike_clusters.npy | spikes.clusters.npy returns;
       save_spikes_subset_waveforms writes only the three _phy_spikes_subset.* files; close writes nothing.
       Hence no save ever writes spike templates, spike times or any other dataset file.
+  F2  neither loading nor a save creates a dataset file as a hard / symbolic link to another one (a save in place would
+      then rewrite both names, e.g. the spike templates through the cluster file)
   T1  writer/reader agreement: the saved metadata file matches the loader's glob and is not excluded; the header key
       `cluster_id` written by the saver is the key the loader groups by; the cluster file saved is the first-priority file
       of the loader; the subset-store names agree between saver, loader and the ALF copy table; the loader reads all
@@ -94,6 +96,33 @@ def f1_effects(ctx):
         if mname == 'save_spike_clusters':
             ctx.check(any(e.kind == 'write' for e, root, pat in sites), 'C10.F1', fi, mname, 'save_spike_clusters writes the cluster file',
                       'save_spike_clusters writes nothing')
+
+
+def f2_no_alias(ctx):
+    """No dataset file is created as a hard link / symbolic link to another one, neither by loading nor by a save: a save that rewrites one
+    name in place would rewrite the other (spike templates unchanged after saving the clusters)."""
+    repo = ctx.repo
+    cls = repo.cls(M, 'TemplateModel')
+    n = 0
+    bad = 0
+    for mname in ('__init__', 'save_metadata', 'save_spike_clusters', 'save_spikes_subset_waveforms'):
+        fi = repo.lookup_method(cls, mname)
+        f = make_fx(repo)
+        obj = model_obj(repo)
+        if mname != '__init__':
+            obj.fields.update({'traces': O(repo.cls('phylib/io/traces.py', 'BaseEphysReader')), 'spike_templates': A(), 'spike_samples': A(),
+                               'n_templates': U, 'n_samples_waveforms': U, 'n_closest_channels': U, 'template_ids': U, 'sparse_templates': R({'data': A(), 'cols': K(None)})})
+        f.run(fi, self_obj=obj, args=None if mname == '__init__' else [U] * max(0, len(fi.real_params) - 1))
+        n += f.calls_seen
+        for e in f.effects:
+            if e.kind == 'alias':
+                bad += 1
+                ctx.violated('C10.F2', e.fi, e.node, 'TemplateModel.%s creates a dataset file as a link to another file [%s; call chain %s]: the two names share their bytes, '
+                             'so saving one of them in place rewrites the other (e.g. the spike templates after the cluster assignments are saved)' % (mname, e.detail, e.chain()))
+    if not bad:
+        ctx.holds('C10.F2', repo.lookup_method(cls, '__init__'), 'neither loading nor any save creates a dataset file as a hard / symbolic link to another file '
+                  '(%d call sites interpreted): files written by a save are private to their name' % n, 'no link primitives')
+    ctx.analysed['call_sites'] += n
 
 
 def t1_agreement(ctx):
@@ -242,6 +271,7 @@ def p1_d1(ctx):
 
 def run(ctx):
     f1_effects(ctx)
+    f2_no_alias(ctx)
     t1_agreement(ctx)
     p1_d1(ctx)
 
